@@ -73,6 +73,11 @@ def gen_cases(tier, seed):
         shape = [rnd.randint(1, hi) for _ in range(3)]
         if rnd.random() < 0.15:
             shape[rnd.randrange(3)] = 1
+        long_axis = rnd.random() < 0.12
+        if long_axis:
+            # one axis beyond 128 / 256 voxels (default 64-voxel chunks), others tiny
+            shape = [rnd.randint(1, 4) for _ in range(3)]
+            shape[rnd.randrange(3)] = rnd.choice([129, 200, 257, 300])
         stored = "uint8" if layout == "rgb" else rnd.choice(STORED)
         target = rnd.choice(TARGETS)
         enc = "compressed_segmentation" if target in ("uint32", "uint64") \
@@ -89,8 +94,10 @@ def gen_cases(tier, seed):
             "mmap": rnd.random() < 0.4, "gz": rnd.random() < 0.4,
             "bigendian": rnd.random() < 0.2,
             "info": rnd.choice(["hand", "hand", "generated"]),
-            "chunk": [rnd.choice([1, 2, 3, 4, 5, 8]) for _ in range(3)],
-            "gen_target": rnd.choice([2, 4, 8]),
+            "chunk": [rnd.choice([1, 2, 3, 4, 5, 8]) for _ in range(3)] if not long_axis
+            else [64, 64, 64],
+            "gen_target": 64 if long_axis else rnd.choice([2, 4, 8]),
+            "long_axis": long_axis,
             "cli": rnd.random() < 0.12,
             "shard_bits": [rnd.randint(0, 3), rnd.randint(0, 3), rnd.randint(0, 3)],
             "vseed": rnd.randrange(2 ** 32)})
@@ -186,7 +193,7 @@ def run_case(case):
            "header_scaling_with_minmax": 0, "ignore_scaling": int(case["ignore"]),
            "partial_border_chunk": 0, "single_voxel_axis": int(1 in case["shape"]),
            "tolerance_used": 0, "exact_demanded": 0, "bigendian": int(case["bigendian"]),
-           "cseg": int(case["encoding"] != "raw")}
+           "cseg": int(case["encoding"] != "raw"), "long_axis": int(case.get("long_axis", 0))}
     v = []
     try:
         fn = os.path.join(top, "vol.nii" + (".gz" if case["gz"] else ""))
@@ -382,4 +389,5 @@ def gates(obs, tier):
         "single_voxel_axes": obs.get("single_voxel_axis", 0) > 5,
         "compressed_segmentation": obs.get("cseg", 0) > 5,
         "exact_results_demanded": obs.get("exact_demanded", 0) > 1000,
+        "axes_longer_than_128_voxels": obs.get("long_axis", 0) > 5,
     }
